@@ -59,7 +59,8 @@ fn hist<W: WorldDriver>(m: &HashMap<String, String>) -> i32 {
     let cases: u32 = m.get("cases").map(|s| s.parse().unwrap()).unwrap_or(100);
     let len: usize = m.get("len").map(|s| s.parse().unwrap()).unwrap_or(120);
     let seed: u64 = m.get("seed").map(|s| s.parse().unwrap()).unwrap_or(1);
-    let cfg = Cfg::new(intensity(m.get("intensity")));
+    let mut cfg = Cfg::new(intensity(m.get("intensity")));
+    cfg.lenient_capacity = !matches!(prop.as_str(), "C12" | "C19" | "C19W");
     if let Some(pf) = m.get("prefill") {
         let mut it = pf.split(',');
         let arch: u8 = it.next().and_then(|t| t.parse().ok()).expect("--prefill arch,k");
@@ -218,7 +219,8 @@ fn c10<W: WorldDriver>(m: &HashMap<String, String>) -> i32 {
     let len: usize = m.get("len").map(|s| s.parse().unwrap()).unwrap_or(60);
     let seed: u64 = m.get("seed").map(|s| s.parse().unwrap()).unwrap_or(1);
     let max_k: u64 = m.get("max-k").map(|s| s.parse().unwrap()).unwrap_or(1000);
-    let cfg = Cfg::new(intensity(m.get("intensity")));
+    let mut cfg = Cfg::new(intensity(m.get("intensity")));
+    cfg.lenient_capacity = true;
     match vh::c10::fixed_scenarios::<W>() {
         Ok(_) => {}
         Err(msg) => {
@@ -286,6 +288,7 @@ fn conv_replay<W: WorldDriver>(lines: &[String], path: &str) -> i32 {
 fn replay<W: WorldDriver>(prop: &str, case: &Case, path: &str, m: &HashMap<String, String>) -> i32 {
     let mut cfg = Cfg::new(intensity(m.get("intensity").or(Some(&"full".to_string()))));
     cfg.max_sims = 3;
+    cfg.lenient_capacity = !matches!(prop, "C12" | "C19" | "C19W");
     if let Ok(text) = std::fs::read_to_string(path) {
         cfg.inject = vh::c10::parse_inject(&text);
         if cfg.inject.is_some() {
